@@ -4,6 +4,14 @@ Bounded run-time harness: the real shelve back end in a temp dir (in-process
 Connector/Worker, no sockets) is driven through short histories and every
 ``Dataset.load()`` is compared with a reference dictionary model that is
 written from the property statement only.
+
+Aliasing part (seed independent): a consumer that works on a loaded value IN
+PLACE (operation 'mutate': load, then change the payload dictionary / its lists,
+the ``extra`` list and set a new attribute on the loaded value object; nothing
+is stored) must not change what any LATER load returns - neither for the same
+identity nor for another target / author / run whose stored content is
+byte-identical.  A later load that shows the in-place change is reported under
+C06.intact with the signature 'aliasing:later-load-sees-in-place-change'.
 '''
 
 import itertools
@@ -27,7 +35,10 @@ BOUND = (
     'compared with a dictionary model; thorough tier: all histories of length '
     '<= 2 over a 24-operation core alphabet (x 3 author pairings) enumerated + '
     '6000 seeded random histories of 3..6 operations; quick tier: the length-1 '
-    'core, the length-2 core histories around one fixed update and 24 random ones'
+    'core, the length-2 core histories around one fixed update and 24 random ones; plus (both tiers, seed independent) '
+    '18 (thorough: 54 = x 3 author pairings) enumerated aliasing histories [update, (update of byte-identical content for another '
+    'target / author / run / value version), mutate = load + in-place change of the loaded value objects, (reopen), load]; the '
+    'random histories also contain mutate operations'
 )
 
 CLAUSES = [
@@ -86,14 +97,52 @@ def _build(r, depth):
     return [shared, shared, {'alias': shared}]
 
 
-def payload(n):
-    '''content number n (n identifies it; the rest is generated from n)'''
+def payload(n, salt=0):
+    '''content number n (n identifies it; the rest is generated from n)
+
+    salt: a number derived from the history the content belongs to.  It makes the
+    stored bytes of one history different from those of every other history run in
+    the same process, so that whatever a history observes is caused by its own
+    operations and a reported input replays on its own.'''
     r = random.Random(n * 7919 + 13)
-    return {'id': n, 'data': _build(r, 0), 'tail': (n, _build(r, 1))}
+    return {'id': n, 'salt': salt, 'data': _build(r, 0), 'tail': (n, _build(r, 1))}
+
+
+def salt_of(case):
+    import zlib
+
+    return zlib.crc32(repr((case['authors'], case['ops'], bool(case.get('audit_each')))).encode('utf-8'))
 
 
 def extra(n):
     return None if n % 3 else ['extra', n]
+
+
+MARK = '__changed_in_place__'
+
+
+def mutate_in_place(value, mark):
+    '''what an algorithm working on its input does: change the loaded object itself'''
+    p = value.payload
+    if isinstance(p, dict):
+        p[MARK] = mark  # new key
+        p['tail'] = ('overwritten', mark)  # replaced item
+        if isinstance(p.get('data'), list):
+            p['data'].append(mark)  # grown list
+        elif isinstance(p.get('data'), dict):
+            p['data'][MARK] = mark
+        elif isinstance(p.get('data'), bytearray):
+            p['data'].extend(b'!')
+        else:
+            p['data'] = [mark]
+    if isinstance(getattr(value, 'extra', None), list):
+        value.extra.append(mark)
+    value.scratch = mark  # new attribute of the value object
+
+
+def is_marked(value):
+    p = getattr(value, 'payload', None)
+    return hasattr(value, 'scratch') or (isinstance(p, dict) and MARK in p)
 
 
 def payload_id(p):
@@ -137,6 +186,9 @@ class Runner:
         self.execs = 0
         self.found = []
         self.step = -1
+        self.mutations = 0
+        self.kept = []
+        self.salt = salt_of(case)
 
     # ---- bookkeeping written from the property statement --------------------
     def config(self, a):
@@ -199,7 +251,7 @@ class Runner:
         cfg = self.config(a)
         contents = {}
         for s, n in zip(slots, cids):
-            contents[(s // 2, s % 2)] = payload(n)
+            contents[(s // 2, s % 2)] = payload(n, self.salt)
         alg = self.algorithm(a, cfg, contents)
         for sv in alg.state_vectors():
             for vn in sv:
@@ -229,12 +281,15 @@ class Runner:
             sc.dataset(alg, self.authors[a][0], run, TARGETS[t]).load()
         except Exception as e:  # pylint: disable=broad-except
             self.flag('C06.intact', f'load-raised-{type(e).__name__}', {'load': ask, 'error': repr(e)}, 'load completes')
-            return
+            return []
+        loaded = []
         for (i, j), placeholder in before.items():
             got = alg.state_vectors()[i][VN[j]]
             want, clause = self.expected(a, t, run, cfg, i, j)
             want_ident = self.ident(a, t, cfg, i, j)
             where = dict(ask, sv=SVN[i], value=VN[j])
+            if got is not placeholder:
+                loaded.append(got)
             if want is None:
                 if got is placeholder:
                     continue
@@ -252,9 +307,23 @@ class Runner:
                 cl = 'C06.isolation' if rel.startswith('other-') else clause
                 self.flag(cl, f'wrong-entry:got-{rel}', {'load': where, 'got_content': n, 'stored_as': self.origin.get(n)}, {'content': want, 'stored_as': self.origin.get(want)})
                 continue
-            ref = sc.HValue(payload(want), (0, 0, 0), extra(want))
+            ref = sc.HValue(payload(want, self.salt), (0, 0, 0), extra(want))
             if type(got) is not sc.HValue or not sc.deep_eq(got, ref):
-                self.flag('C06.intact', 'content-altered', {'load': where, 'got': repr(getattr(got, '__dict__', got))[:300]}, {'content': want})
+                sig = 'content-altered'
+                if self.mutations and is_marked(got):
+                    # the change a consumer made to an EARLIER loaded object, never stored
+                    sig = 'aliasing:later-load-sees-in-place-change'
+                self.flag('C06.intact', sig, {'load': where, 'got': repr(getattr(got, '__dict__', got))[:300], 'in_place_changes_so_far': self.mutations}, {'content': want, 'stored': repr(ref.__dict__)[:300]})
+        return loaded
+
+    def do_mutate(self, a, t, run, cfg):
+        '''load (checked like every load), then work on the loaded objects in place; nothing is stored'''
+        loaded = self.do_load(a, t, run, cfg, 'mutate')
+        for k, value in enumerate(loaded):
+            self.mutations += 1
+            mutate_in_place(value, ('mark', self.step, k))
+        # the consumer keeps its objects as long as it likes
+        self.kept.append(loaded)
 
     def do_remove(self, run, t, a, i, j):
         task, alg = self.authors[a]
@@ -295,6 +364,8 @@ class Runner:
                 runs.add(op[1])
             elif op[0] == 'loadrun':
                 runs.add(op[3])
+            elif op[0] == 'mutate' and op[3] is not None:
+                runs.add(op[3])
         unused = [t for t in range(len(TARGETS)) if t not in tgts]
         for a in range(len(self.authors)):
             for cfg in self.configs[a]:
@@ -316,6 +387,9 @@ class Runner:
                     self.do_load(op[1], op[2], FRESH_RUN, self.config(op[1]), 'op')
                 elif kind == 'loadrun':
                     self.do_load(op[1], op[2], op[3], self.config(op[1]), 'op')
+                elif kind == 'mutate':
+                    # ['mutate', author, target, run or None (= a run without entry: the latest is delivered)]
+                    self.do_mutate(op[1], op[2], FRESH_RUN if op[3] is None else op[3], self.config(op[1]))
                 elif kind == 'bump':
                     self.do_bump(op[1], op[2], op[3])
                 elif kind == 'add':
@@ -418,6 +492,50 @@ def random_case(rng, idx):
     }
 
 
+def aliasing_cases(pairs):
+    '''enumerated, seed independent: in-place work on a loaded value between two loads that resolve to the same stored bytes'''
+    S = [0, 1, 2, 3]
+    C = [500, 501, 502, 503]
+    D = [510, 511, 512, 513]
+    first = ['update', 0, 0, 1, S, C]
+    variants = [
+        ('same-identity', [first, ['mutate', 0, 0, None], ['load', 0, 0]]),
+        ('same-identity-by-run', [first, ['mutate', 0, 0, 1], ['loadrun', 0, 0, 1]]),
+        ('same-identity-reopen', [first, ['mutate', 0, 0, None], ['reopen'], ['load', 0, 0]]),
+        ('twice', [first, ['mutate', 0, 0, None], ['mutate', 0, 0, 1], ['load', 0, 0]]),
+        ('other-target', [first, ['update', 0, 1, 1, S, C], ['mutate', 0, 0, None], ['load', 0, 1]]),
+        ('other-target-reverse', [first, ['update', 0, 1, 1, S, C], ['mutate', 0, 1, None], ['load', 0, 0]]),
+        ('other-target-reopen', [first, ['update', 0, 1, 1, S, C], ['mutate', 0, 0, None], ['reopen'], ['load', 0, 1]]),
+        ('other-author', [first, ['update', 1, 0, 1, S, C], ['mutate', 1, 0, None], ['load', 0, 0]]),
+        ('other-author-target-run', [first, ['update', 1, 1, 2, S, C], ['mutate', 0, 0, None], ['loadrun', 1, 1, 2]]),
+        ('other-run', [first, ['update', 0, 0, 2, S, C], ['mutate', 0, 0, 1], ['loadrun', 0, 0, 2]]),
+        ('other-run-other-content', [first, ['update', 0, 0, 2, S, D], ['mutate', 0, 0, 2], ['loadrun', 0, 0, 1], ['loadrun', 0, 0, 2]]),
+        ('other-value-version', [first, ['bump', 0, 'val00', 2], ['update', 0, 0, 1, S, C], ['mutate', 0, 0, None]]),
+        ('other-alg-version', [first, ['bump', 0, 'alg', 0], ['update', 0, 0, 2, S, C], ['mutate', 0, 0, None]]),
+        ('other-slot', [['update', 0, 0, 1, [0], [500]], ['update', 0, 1, 1, [3], [500]], ['mutate', 0, 0, None], ['load', 0, 1]]),
+        ('swapped-slots', [first, ['update', 0, 1, 1, S, C[::-1]], ['mutate', 0, 1, None], ['load', 0, 0]]),
+        ('then-overwritten', [first, ['mutate', 0, 0, None], ['update', 0, 0, 1, S, D], ['load', 0, 0]]),
+        ('then-stored-again-elsewhere', [first, ['mutate', 0, 0, None], ['update', 0, 1, 1, S, C], ['load', 0, 1], ['load', 0, 0]]),
+        ('then-removed', [first, ['update', 0, 1, 1, S, C], ['mutate', 0, 0, None], ['remove', 1, 0, 0, 0, 0], ['load', 0, 1]]),
+    ]
+    for i, (name, ops) in enumerate(variants):
+        for pi in pairs if pairs is not None else [i % len(AUTHOR_PAIRS)]:
+            yield {'authors': AUTHOR_PAIRS[pi], 'ops': [list(op) for op in ops], 'audit_each': False, 'what': 'aliasing:' + name}
+
+
+def add_mutations(case, mrng):
+    '''seeded: put in-place work (and sometimes a second copy of stored content) into a random history'''
+    ops = case['ops']
+    updates = [op for op in ops if op[0] == 'update']
+    if updates and mrng.random() < 0.4:
+        u = mrng.choice(updates)
+        # byte-identical content for another target / author / run
+        ops.insert(mrng.randrange(ops.index(u) + 1, len(ops) + 1), ['update', mrng.randrange(2), mrng.randrange(2), mrng.choice(RUNS), list(u[4]), list(u[5])])
+    for _ in range(mrng.choice([0, 1, 1, 2])):
+        ops.insert(mrng.randrange(1, len(ops) + 1), ['mutate', mrng.randrange(2), mrng.randrange(2), mrng.choice([None, None] + RUNS)])
+    return case
+
+
 def signature_of(case):
     return repr((case['authors'], case['ops'], case.get('audit_each')))
 
@@ -457,6 +575,10 @@ def run(tier: str, seed: int) -> dict:
         nrand, procs = 6000, min(16, os.cpu_count() or 1)
         exhaustive_note = 'all core histories of length <= 2 for the 3 author pairings'
     rand = [random_case(rng, i) for i in range(nrand)]
+    mrng = random.Random(seed * 7919 + 5)  # own stream: the histories drawn from rng stay what they were
+    rand = [add_mutations(c, mrng) for c in rand]
+    alias = list(aliasing_cases(None if tier == 'quick' else [0, 1, 2]))  # seed independent
+    core = alias + core
     cases = core + rand
     deadline = t0 + sc.BUDGET_S[tier]
     if procs > 1:
@@ -479,20 +601,25 @@ def run(tier: str, seed: int) -> dict:
         sigs.add(signature_of(case))
         for f in found:
             inp = {'authors': case['authors'], 'ops': case['ops'][: f['step'] + 1], 'audit_each': case.get('audit_each', False)}
+            if case.get('what'):
+                inp['what'] = case['what']
             viol.add(f['clause'], f['signature'], inp, f['observed'], f['expected'])
     return {
         'cases': execs,
         'distinct': len(sigs),
         'rule': (
-            f'{len(core)} enumerated core histories ({exhaustive_note}; histories without any update are '
-            f'skipped as trivial) + {nrand} seeded random histories of 3..6 operations; every history runs on a '
+            f'{len(alias)} enumerated aliasing histories (update, optionally the byte-identical content stored again for another target / '
+            'author / run / version / slot, mutate = load and change the loaded value objects in place, optionally reopen, load again) + '
+            f'{len(core) - len(alias)} enumerated core histories ({exhaustive_note}; histories without any update are '
+            f'skipped as trivial) + {nrand} seeded random histories of 3..6 operations (+ up to 3 seeded inserted operations: in-place '
+            'work on loaded values, a second copy of stored content); every history runs on a '
             'fresh store and ends with an audit that loads every (author, version configuration seen, target, '
             'run in {1,2,3,7}); "cases" counts executions of update/load/remove/add/reopen on the real code, '
             '"distinct" counts distinct histories; md5sum/sha1sum are replaced by an in-process equivalent '
             'printing the same text (C07 runs the real ones)'
         ),
         'exhaustive': False,
-        'samples': [rand[0], rand[1], core[0], core[-1]] if rand else core[:3],
+        'samples': [rand[0], rand[1], core[-1], alias[4]] if rand else core[:3],
         'violations': viol.as_list(),
         'clauses': CLAUSES,
         'histories': len(results),
